@@ -32,6 +32,7 @@ type canonAssign struct {
 	lhs   []string // canonical names given to the left-hand sides ("" when not a plain local)
 	rhs   []ast.Expr
 	order int
+	pc    []ast.Expr
 }
 
 type canonView struct {
@@ -49,6 +50,7 @@ type canonView struct {
 	pc      []ast.Expr // canonical conjuncts under which the current statement is reached
 	loopAt  []int      // len(pc) at the entry of each enclosing loop body
 	returns []canonReturn
+	allReturns []canonReturn // including those of inlined helpers
 }
 
 // canonReturn: a return statement, its canonical results and the condition under which it is reached — from the
@@ -58,6 +60,7 @@ type canonReturn struct {
 	pc      []ast.Expr
 	loopPc  []ast.Expr
 	inLoop  bool
+	depth   int // 0: the function itself; >0: a helper it calls
 }
 
 type cenv struct {
@@ -146,6 +149,9 @@ func (v *canonView) canon(env *cenv, e ast.Expr) ast.Expr {
 	case *ast.BinaryExpr:
 		return &ast.BinaryExpr{X: v.canon(env, x.X), Op: x.Op, Y: v.canon(env, x.Y)}
 	case *ast.IndexExpr:
+		if src(x.Index) == "0" { // the first element, whatever the slice is called or wherever it is read
+			return ast.NewIdent("$elem0")
+		}
 		return &ast.IndexExpr{X: v.canon(env, x.X), Index: v.canon(env, x.Index)}
 	case *ast.SliceExpr:
 		return &ast.SliceExpr{X: v.canon(env, x.X), Low: v.canon(env, x.Low), High: v.canon(env, x.High), Max: v.canon(env, x.Max), Slice3: x.Slice3}
@@ -266,7 +272,7 @@ func (v *canonView) assign(env *cenv, x *ast.AssignStmt) {
 			helperRes = res
 		}
 	}
-	rec := canonAssign{order: v.n + 1}
+	rec := canonAssign{order: v.n + 1, pc: append([]ast.Expr{}, v.pc...)}
 	for _, r := range x.Rhs {
 		rec.rhs = append(rec.rhs, v.canon(env, r))
 	}
@@ -301,6 +307,8 @@ func (v *canonView) assign(env *cenv, x *ast.AssignStmt) {
 			c = ast.NewIdent(nm)
 		case len(x.Rhs) == len(x.Lhs) && isCall(x.Rhs[i]):
 			c = ast.NewIdent("$" + calleeName(x.Rhs[i].(*ast.CallExpr)))
+		case len(x.Rhs) == len(x.Lhs) && litType(x.Rhs[i]) != "":
+			c = ast.NewIdent("$lit(" + litType(x.Rhs[i]) + ")")
 		case len(x.Rhs) == len(x.Lhs):
 			c = ast.NewIdent("$var(" + norm(src(v.canon(env, x.Rhs[i]))) + ")")
 		default:
@@ -311,6 +319,17 @@ func (v *canonView) assign(env *cenv, x *ast.AssignStmt) {
 	}
 	v.assigns = append(v.assigns, rec)
 	v.note(&ast.AssignStmt{Lhs: x.Lhs, Tok: x.Tok, Rhs: rec.rhs})
+}
+
+// litType: the type of a composite literal (or of the address of one), "" otherwise.
+func litType(e ast.Expr) string {
+	if u, ok := e.(*ast.UnaryExpr); ok && u.Op == token.AND {
+		e = u.X
+	}
+	if cl, ok := e.(*ast.CompositeLit); ok && cl.Type != nil {
+		return norm(src(cl.Type))
+	}
+	return ""
 }
 
 func isCall(e ast.Expr) bool { _, ok := e.(*ast.CallExpr); return ok }
@@ -357,6 +376,8 @@ func (v *canonView) stmt(env *cenv, s ast.Stmt) {
 			v.collectLits(c)
 			rec.results = append(rec.results, norm(src(c)))
 		}
+		rec.depth = v.depth
+		v.allReturns = append(v.allReturns, rec)
 		if v.depth == 0 {
 			v.returns = append(v.returns, rec)
 		}
@@ -738,5 +759,73 @@ func semStmtFact(rel, fn, pattern, leanName string) func() string {
 			panic(bail{fmt.Sprintf("%s: `%s` matches %d canonical statements of %s, expected one", rel, pattern, len(got), fn)})
 		}
 		return fmt.Sprintf("/-- generated from %s func %s: canonical `%s` -/\ndef %s : String := %q\n", rel, fn, pattern, leanName, got[0])
+	}
+}
+
+// semConstChoice: a two-valued choice made by a Bool.  `whenTrue` and `whenFalse` are source constants that each occur exactly
+// once as an assigned or returned value in fn (and its helpers); the result is `if <condition under which whenTrue is the
+// value> then A else B`, the condition being the reach condition of that occurrence restricted to the conjuncts that mention
+// `cond` (canonical name of the deciding Bool).
+func semConstChoice(rel, fn, cond, whenTrue, whenFalse, leanName, leanTrue, leanFalse string) func() string {
+	return func() string {
+		v := canonOf(rel, fn)
+		find := func(c string) [][]ast.Expr {
+			var pcs [][]ast.Expr
+			for _, a := range v.assigns {
+				for _, r := range a.rhs {
+					if norm(src(r)) == norm(c) {
+						pcs = append(pcs, a.pc)
+					}
+				}
+			}
+			for _, r := range v.allReturns {
+				for _, x := range r.results {
+					if x == norm(c) {
+						pcs = append(pcs, r.pc)
+					}
+				}
+			}
+			return pcs
+		}
+		pt, pf := find(whenTrue), find(whenFalse)
+		if len(pt) != 1 || len(pf) != 1 {
+			panic(bail{fmt.Sprintf("%s: %s / %s occur %d / %d times as a value in %s, expected once each", rel, whenTrue, whenFalse, len(pt), len(pf), fn)})
+		}
+		t := &tr{sp: Spec{Kind: "i64", Repl: map[string]string{cond: "c"}}}
+		var parts []string
+		for _, c := range pt[0] {
+			if strings.Contains(norm(src(c)), norm(cond)) {
+				parts = append(parts, t.expr(c))
+			}
+		}
+		if len(parts) == 0 {
+			panic(bail{fmt.Sprintf("%s: %s is not chosen under a condition on %s in %s", rel, whenTrue, cond, fn)})
+		}
+		return fmt.Sprintf("/-- generated from %s func %s: `%s` when %s, `%s` otherwise -/\ndef %s (c : Bool) : Int :=\n  if %s then %s else %s\n",
+			rel, fn, whenTrue, cond, whenFalse, leanName, strings.Join(parts, " && "), leanTrue, leanFalse)
+	}
+}
+
+// semKeyValues: every `Key: value` of the composite literals of fn and its helpers, values in canonical form.
+func semKeyValues(rel, fn, leanName string) func() string {
+	return func() string {
+		v := canonOf(rel, fn)
+		var rows []string
+		seen := map[*ast.CompositeLit]bool{}
+		for _, cl := range v.lits {
+			if seen[cl] {
+				continue
+			}
+			seen[cl] = true
+			for _, e := range cl.Elts {
+				if kv, ok := e.(*ast.KeyValueExpr); ok {
+					if _, isLit := kv.Value.(*ast.CompositeLit); !isLit {
+						rows = append(rows, fmt.Sprintf("(%q, %q)", src(kv.Key), norm(src(kv.Value))))
+					}
+				}
+			}
+		}
+		return fmt.Sprintf("/-- generated from %s func %s (and its helpers): the fields of its composite literals, values in canonical form -/\ndef %s : List (String × String) :=\n  [%s]\n",
+			rel, fn, leanName, strings.Join(rows, ", "))
 	}
 }
